@@ -89,25 +89,28 @@ chk("C09", "model_checking",
 EXTRA = {
  "C01": "Second passes: all cases of a configuration class through ONE long-lived world (aged worlds), a t-way pass over the declared reductions of the product, an environment fault on TCP departures (partial write), and the call-flow pass (12 canonical SIP flows x 14 configurations, every relayed message compared with the message of its step).",
  "C02": "Second passes: aged worlds, t-way pass over the declared reductions, configuration and body-size features, call-flow pass (exactly one copy of every response at the expected side with the Via stack the request had).",
- "C03": "Second passes: aged worlds, t-way pass over the declared reductions, multi-destination and exact-under-wildcard static entries, large requests, call-flow pass (every request of 12 canonical flows at exactly one expected destination, incl. a call that leaves by a static route).",
+ "C03": "Second passes: aged worlds, t-way pass over the declared reductions, multi-destination and exact-under-wildcard static entries, large requests, call-flow pass (every request of 12 canonical flows at exactly one expected destination, incl. a call that leaves by a static route). Round 7: a name list without any @ whose pattern depends on the user (three users on one host) and spiralled requests (a lower Via names the listener).",
  "C04": "Plus a timed BFS (process older than the dialog timeout), a volume run (12000-60000 unrelated requests) and the call-flow pass (in-dialog requests of every flow at the answering backend).",
  "C05": "Plus every configured backend list over a 6-URL universe (same host:port over both transports, host-name entry), a two-removers schedule scenario, and the call-flow pass (dialog-less requests walk the rotation).",
  "C06": "Plus a many-peers run (a next hop first seen after thousands of peers is still learned), the pinned-backend-gone scenario and the call-flow pass (one fresh Via, Record-Route by policy on every request of every flow).",
- "C07": "Plus a second listens entry with the opposite setting, long parameter lists, source port 65535, mixed compact / full Via lines, and the call-flow pass (every relayed request of every flow stamped with its true source).",
- "C08": "Plus TCP cases after a valid request on the same connection, a soak run of hundreds to thousands of hostile connections through one proxy, and configurations with omitted optional keys.",
+ "C07": "Plus a second listens entry with the opposite setting, long parameter lists, source port 65535, mixed compact / full Via lines, and the call-flow pass (every relayed request of every flow stamped with its true source). Round 7: the same transaction a moment earlier from another source port.",
+ "C08": "Plus TCP cases after a valid request on the same connection, a soak run of hundreds to thousands of hostile connections through one proxy, and configurations with omitted optional keys. Round 7: extra header lines with hostile names (bytes >= 0x80, NUL, empty, 70000 bytes); size extremes dealt to the workers in sorted order.",
  "C09": "Further scenarios: shrink / shrink-first (with a stable period), named-hops, static-routes (shared static route table), connections-lost; every replayed prefix is validated against its parent's choice points.",
- "C10": "Plus a size sweep around every power of two (thorough: every length 400..4200), empty datagrams and leading-CRLF shapes, two UDP listeners receiving at once (race tier), and the call-flow pass over UDP.",
+ "C10": "Plus a size sweep around every power of two (thorough: every length 400..4200), empty datagrams and leading-CRLF shapes, two UDP listeners receiving at once (race tier), and the call-flow pass over UDP. Round 7: different datagrams with one and the same branch.",
  "C11": "Shapes now include LF-terminated long lines and Content-Length written with leading zeros.",
- "C12": "Plus prefix-related branches, busy periods and unanswered load beyond 1024 entries, slow answers under short dialog timeouts, answers from a foreign port with joined Via, a DNS-only sent-by name, the call-flow pass, and a two-listens-entries scenario recorded as a tracked finding.",
+ "C12": "Plus prefix-related branches, busy periods and unanswered load beyond 1024 entries, slow answers under short dialog timeouts, answers from a foreign port with joined Via, a DNS-only sent-by name, the call-flow pass, and a two-listens-entries scenario recorded as a tracked finding. Round 7: clients on a backend's host that announce the backend's listening address.",
  "C13": "Plus an address-less listener, an unresolvable first entry, ports with leading zeros, aged worlds and the declared-reduction t-way pass.",
  "C14": "Plus decode independence (a decoded value consumed / stamped the way the proxy does must not show in other decodes of the same text) and ports written with leading zeros.",
- "C15": "Plus 6xx BYE answers, Expires with a leading zero, populations of 6000-30000 dialogs, dialogs re-established while a purge is under way, and the call-flow pass.",
- "C16": "Plus 12000-60000 further dialogs followed by a complete second enumeration (identifiers must not change over time), pairs of host spellings through a running proxy with a hosts section, and the call-flow pass (in-dialog OPTIONS / MESSAGE … at the answering backend).",
- "C17": "Plus every canonical call flow with two Via values on separate lines against the same flow with the values comma-joined (step by step the same destinations).",
+ "C15": "Plus 6xx BYE answers, Expires with a leading zero, populations of 6000-30000 dialogs, dialogs re-established while a purge is under way, and the call-flow pass. Round 7: a plan with dialogTimeout 40 s and rejected re-INVITEs, a long run that resumes after a quiet spell; the purge invariant is stated over ongoing traffic.",
+ "C16": "Plus 12000-60000 further dialogs followed by a complete second enumeration (identifiers must not change over time), pairs of host spellings through a running proxy with a hosts section, and the call-flow pass (in-dialog OPTIONS / MESSAGE … at the answering backend). Round 7: an escaped colon in the user against user + password.",
+ "C17": "Plus every canonical call flow with two Via values on separate lines against the same flow with the values comma-joined (step by step the same destinations). Round 7: a route set that names the listener twice.",
  "C18": "Plus lookup sequences on ONE table instance (forwards, hundreds to thousands of other hosts, backwards), inner-wildcard overlap hosts, and YAML entries with several destinations.",
- "C19": "Plus backend lists ending with a static entry of the other transport, suffix/prefix-related addresses, a transaction in flight across the last step, and one host name under both transports (tracked finding).",
+ "C19": "Plus backend lists ending with a static entry of the other transport, suffix/prefix-related addresses, a transaction in flight across the last step, and one host name under both transports (tracked finding). Round 7: rotation membership also by multiplicity; one host name feeding the rotations of two listens entries (found the resolver defect fixed in 828009b) and a second entry that cannot bind; the same-name search continues past its tracked violations.",
  "C20": "Plus partial-write faults, encoded lengths around 64 KiB, and a configured backend-local-port with a bind-conflict model.",
 }
+# state keys and white-box clauses read private state through harness/zz_priv.go (by name, then by shape, at run time)
+for _id in ("C02", "C04", "C05", "C12", "C15", "C19"):
+    EXTRA[_id] += " Private state is read reflectively (by name, then by shape): a restructured table does not stop the check from building."
 for _id, _x in EXTRA.items():
     CHECKS[_id]["text"] += " " + _x
 
